@@ -59,7 +59,7 @@ class Frame:
 
 LOGGER_PREFIXES = ("LOGGER.", "_LOGGER.", "logging.")
 
-PURE_BUILTINS = {"len", "range", "min", "max", "abs", "int", "bool", "tuple", "list", "dict", "set", "frozenset",
+PURE_BUILTINS = {"divmod", "pow", "round", "ord", "chr", "hex", "len", "range", "min", "max", "abs", "int", "bool", "tuple", "list", "dict", "set", "frozenset",
                  "enumerate", "zip", "sorted", "str", "bytes", "bytearray", "float", "sum", "any", "all", "repr",
                  "reversed", "hash", "callable", "iter", "print", "id"}
 
@@ -135,7 +135,7 @@ class PX:
         store = {}
         if fr is not None:
             store["locals"] = dict(fr.locals)
-            if fr.self_obj is not None:
+            if isinstance(fr.self_obj, Obj):
                 store["self"] = dict(fr.self_obj.fields)
         return Path(list(self.events), terminal, value, store, list(self._taken), list(self.assumes))
 
@@ -662,13 +662,40 @@ class PX:
         if env is not None and name in env:
             v = env[name]
             if isinstance(v, Unknown):
-                return Sym(f"{fr.mod.rsplit('.', 1)[-1]}.{name}")
+                return self.module_value(fr.mod, name)
             return v
         import builtins
 
         if hasattr(builtins, name):
             return TypeRef("builtins." + name)
         raise Exc("NameError", (name,), origin=name)
+
+    def module_value(self, mod, name):
+        """Module-level ``NAME = <call of a repo function on constants>`` that TE could not fold: evaluate the
+        right-hand side once with this explorer (pure table builders such as the LFSR sequence)."""
+        cache = self.repo.__dict__.setdefault("_px_consts", {})
+        key = (mod, name)
+        if key in cache:
+            return cache[key]
+        cache[key] = Sym(f"{mod.rsplit('.', 1)[-1]}.{name}")
+        node = None
+        for st in self.repo.tree(mod).body:
+            if isinstance(st, ast.Assign) and any(isinstance(t, ast.Name) and t.id == name for t in st.targets):
+                node = st.value
+            elif isinstance(st, ast.AnnAssign) and isinstance(st.target, ast.Name) and st.target.id == name:
+                node = st.value
+        if isinstance(node, ast.Call):
+            sub = PX(self.repo, inline=lambda f, aw: not f.is_async, max_depth=3)
+            sub._script, sub._pos, sub._taken, sub._new = [], 0, [], []
+            sub.events, sub.memo, sub.counters, sub.symfields = [], {}, {}, {}
+            sub.epoch, sub.assumes, sub.timeouts, sub.top_frame = 0, [], [], None
+            try:
+                v = sub.ev(node, Frame(None, {}, None, None, mod, 0))
+                if not sub._new and not isinstance(v, Sym):
+                    cache[key] = v
+            except (Exc, AnalysisError, Truncated):
+                pass
+        return cache[key]
 
     def e_Name(self, e, fr):
         return self.lookup(e.id, fr, e)
@@ -1202,6 +1229,13 @@ class PX:
             return self.builtin(fval.short, text, args, kw, fr, node)
         if isinstance(fval, TypeRef) and fval.name in ("functools.partial",):
             return Partial(args[0], args[1:], kw)
+        if isinstance(fval, TypeRef) and fval.name == "itertools.cycle" and args and not isinstance(args[0], Sym):
+            return _Cycle(self._concrete_iter(args[0], fr, node))
+        if isinstance(fval, TypeRef) and fval.name == "itertools.chain" and not any(isinstance(a, Sym) for a in args):
+            out = []
+            for a in args:
+                out.extend(self._concrete_iter(a, fr, node))
+            return out
         if isinstance(fval, (Bound, FuncRef, Closure)):
             target = fval.func if isinstance(fval, Bound) else fval
             is_async = isinstance(target.node, ast.AsyncFunctionDef)
@@ -1211,7 +1245,8 @@ class PX:
                 r = self.call_function(target, recv, args, kw, fr)
                 self.emit("ret", text, (r,), node=node, frame=fr)
                 return r
-            return self.opaque(text, args, kw, fr, node, awaited)
+            cal = f"{_short(fval.recv)}.{target.name}" if isinstance(fval, Bound) else getattr(target, "short", None)
+            return self.opaque(text, args, kw, fr, node, awaited, cal)
         if isinstance(fval, ClassRef):
             return self.construct(fval, text, args, kw, fr, node)
         if isinstance(fval, TypeRef):
@@ -1327,7 +1362,7 @@ class PX:
 
     def builtin(self, n, text, args, kw, fr, node):
         def conc(x):
-            return not isinstance(x, (Sym, Obj)) and not _has_sym(x)
+            return not isinstance(x, (Sym, Obj, _Cycle)) and not _has_sym(x)
 
         if n == "isinstance":
             return self.isinstance_(args[0], args[1], fr, node)
@@ -1393,6 +1428,11 @@ class PX:
                         if all(isinstance(x, (int, Member)) for x in pyargs[0]):
                             return bytes(int(x) for x in pyargs[0])
                         return Sym(f"bytes({_short(pyargs[0])})")
+                    if n == "zip" and any(isinstance(a, _Cycle) for a in pyargs):
+                        fin = [len(a) for a in pyargs if not isinstance(a, (_Cycle, Sym))]
+                        if not fin or any(isinstance(a, Sym) for a in pyargs):
+                            raise Unsupported("zip of unbounded iterables")
+                        pyargs = [a.take(min(fin)) if isinstance(a, _Cycle) else a for a in pyargs]
                     if n in ("enumerate", "zip", "reversed"):
                         if any(isinstance(a, Sym) for a in pyargs):
                             return Sym(f"{n}({', '.join(_short(a) for a in pyargs)})")
@@ -1455,6 +1495,16 @@ class _DictItems:
 
     def __iter__(self):
         return iter(self.materialise())
+
+
+class _Cycle:
+    def __init__(self, items):
+        self.items = list(items)
+
+    def take(self, n):
+        if not self.items:
+            return []
+        return [self.items[i % len(self.items)] for i in range(n)]
 
 
 class _Gen:
